@@ -23,13 +23,18 @@ CFG = {
             "for self-recursion (the only way to reach depth 1025 under the 63/64 rule); five rule sets (homestead / homestead+HF1 gas / byzantium / "
             "HF5-before-HF7 / spring); plus arity probes: every opcode byte x stack heights 0..8 (0..18 for DUP/SWAP) x 5 rule sets with zero/small/huge "
             "operands (~8 200 runs). Non-trivial = at least 3 interpreter steps executed.",
-    "tie": {"core/vm/jump_table.go (5 instruction sets), params gas tables and constants, precompile address sets, NewInterpreter/Rules selection":
+    "tie": {"core/vm.toWordSize, core/vm.memoryGasCost (mini-translator)": "translated (go/ssa -> Lean on every run; toWordSize_code_is_model, memoryGasCost_code_refines_model for requests <= 0x1fffffffe0 bytes) + corr",
+            "core/vm/jump_table.go (5 instruction sets), params gas tables and constants, precompile address sets, NewInterpreter/Rules selection":
                 "gen (values dumped from the compiled program; enumerations of gas/memory/execute functions the model must match exhaustively)",
+            "instructions.go / gas_table.go / memory_table.go stack accesses (pop, peek, Back, dup, swap, data[len-k]) and memory accesses "
+            "(Memory.Get/GetPtr/Set, store[i]) of every execute, gas and memory-size function":
+                "gen (go/ssa pass go/extract/cmd/vmaccess over the source: needed stack height per function and dereferenced memory ranges "
+                "in entry operands; refusal on any unrecognised shape; table_ok decides reads <= pops and ranges within memorySize)",
             "Interpreter.Run, enforceRestrictions, gas_table.go (all gas functions, memoryGasCost), gas.go callGas, memory_table.go, "
             "evm.go Call/CallCode/DelegateCall/StaticCall/Create/run, opCall*/opCreate gas plumbing":
                 "corr (per run: outcome class, leftover gas, step count, max depth, max memory, checksum over gas/cost/memory/depth/stack of "
                 "every step; Go vs Aqv.Model.Vm.run replaying the recorded oracle)",
-            "instructions.go execute bodies, memory.go, stack.go, contracts.go (precompiles), core/state journal":
+            "instructions.go execute bodies (values, big.Int conversions other than memory operands, slices), memory.go, stack.go, contracts.go (precompiles), core/state journal":
                 "direct Spec judgement on the real code (no panic, terminates, leftover ≤ given, memory paid, depth, failed-frame world "
                 "equality, static world equality)"},
     "assumptions": ["Go runtime, math/big and the cryptographic primitives are modelled, not verified (DESIGN.md 2.5)",
@@ -48,7 +53,7 @@ META = {
                  "machine over the generated instruction tables, for all programs) tied to core/vm by T-gen tables and differential trace replay",
     "text": "Theorems nonhalting_costs_gas, run_terminates, gas_monotone, leftover_le_given_*, call_forwards_at_most_63_64, memory_paid*, "
             "frame_failure_reverts_call/create, static_no_write, static_call_preserves_view, writes_flag_complete, depth_le_1024, "
-            "no_modelled_panic_partial hold for every oracle (program, operands, state answers), world type, gas budget and epoch in the Lean model "
+            "no_modelled_panic, no_modelled_panic_stack_memory, stack_reads_within_validated_height, mem_access_in_bounds hold for every oracle (program, operands, state answers), world type, gas budget and epoch in the Lean model "
             "of Run and the five call wrappers; every run regenerates the instruction tables from the compiled core/vm, re-proves, executes ~2600 "
             "programs x 5 rule sets on the real EVM under a tracer, judges the property directly per frame and replays every trace in the model.",
     "note": GEN + " The bodies of the op* execute functions and the precompiles are not modelled: for them 'does not crash' is judged on the real "
